@@ -134,7 +134,46 @@ def pair_fns(base_fns, cur_fns):
                 continue
             if score[(m, n)] >= 0.5:
                 out[n] = m
+    # moved, not renamed: the same name and signature in another module (an inherent method in an `impl` block of a
+    # child module, a free function moved to a sibling module)
+    left_m = [p for p in missing if p not in out.values()]
+    left_n = [p for p in new if p not in out]
+    moved = {}
+    for p in left_m:
+        moved.setdefault((base_name(p), base_fns[p]["sig"]), ([], []))[0].append(p)
+    for p in left_n:
+        k = (base_name(p), cur_fns[p]["sig"])
+        if k in moved:
+            moved[k][1].append(p)
+    for (ms, ns) in moved.values():
+        if len(ms) == 1 and len(ns) == 1:
+            out[ns[0]] = ms[0]
+    # the same item with its lifetimes written differently (`impl<'a> T for &'a mut X` vs `impl T for &mut X`)
+    left_m = [p for p in missing if p not in out.values()]
+    left_n = [p for p in new if p not in out]
+    lt = {}
+    for p in left_m:
+        lt.setdefault(erase_lifetimes(p), ([], []))[0].append(p)
+    for p in left_n:
+        k = erase_lifetimes(p)
+        if k in lt:
+            lt[k][1].append(p)
+    for (ms, ns) in lt.values():
+        if len(ms) == 1 and len(ns) == 1 and erase_lifetimes(base_fns[ms[0]]["sig"]) == erase_lifetimes(cur_fns[ns[0]]["sig"]):
+            out[ns[0]] = ms[0]
     return out
+
+
+_LT = re.compile(r"'[A-Za-z_][A-Za-z0-9_]*\b(?!')")
+
+
+def erase_lifetimes(s):
+    s = _LT.sub("'_", s)
+    s = s.replace("&'_ ", "&")
+    s = re.sub(r"<'_(?:, '_)*>", "", s)
+    s = re.sub(r"<'_(?:, '_)*, ", "<", s)
+    s = re.sub(r"for<[^>]*> ", "", s)
+    return s
 
 
 def pair_adts(base_adts, cur_adts):
@@ -216,7 +255,18 @@ def pair_statics(base, cur):
         k = key(p, cur[p])
         if k in groups:
             groups[k][1].append(p)
-    return {ns[0]: ms[0] for (ms, ns) in groups.values() if len(ms) == 1 and len(ns) == 1}
+    out = {ns[0]: ms[0] for (ms, ns) in groups.values() if len(ms) == 1 and len(ns) == 1}
+    # moved to another module: same name, type and value
+    moved = {}
+    for p in missing:
+        if p not in out.values():
+            moved.setdefault((base_name(p), json.dumps(base[p], sort_keys=True)), ([], []))[0].append(p)
+    for p in new:
+        k = (base_name(p), json.dumps(cur[p], sort_keys=True))
+        if p not in out and k in moved:
+            moved[k][1].append(p)
+    out.update({ns[0]: ms[0] for (ms, ns) in moved.values() if len(ms) == 1 and len(ns) == 1})
+    return out
 
 
 # ------------------------------------------------------------------------------------------------ applying
@@ -325,7 +375,10 @@ def plan(files):
             bst = B.get("statics", {}).get(key)
             if bst is not None:
                 for n, o in pair_statics(bst, in_reviewed_modules(d.get("statics", {}))).items():
-                    if base_name(n) != base_name(o) and want(base_name(n), base_name(o), "constant %s:" % container(o)) is False:
+                    if container(n) != container(o):
+                        exact[n] = o
+                        notes.append("constant `%s` is the reviewed tree's `%s` (moved)" % (n, o))
+                    elif base_name(n) != base_name(o) and want(base_name(n), base_name(o), "constant %s:" % container(o)) is False:
                         exact[n] = o
     for c in conflicts:
         tokens.pop(c, None)
@@ -344,7 +397,13 @@ def plan(files):
             cur[_token_sub(_module_sub(fd["path"], mods), type_tokens)] = {"sig": sig, "body": fn_body_summary(fd), "real": fd["path"]}
         for n, o in pair_fns(bf, cur).items():
             real = cur[n]["real"]
-            if base_name(n) != base_name(o) and want(base_name(n), base_name(o), "function %s:" % container(o)) is False:
+            if container(n) != container(o):
+                exact[real] = o
+                if erase_lifetimes(n) != erase_lifetimes(o):
+                    notes.append("function `%s` is the reviewed tree's `%s` (moved)" % (real, o))
+                elif not any("lifetimes of %s" % container(o) in x for x in notes):
+                    notes.append("lifetimes of %s are written differently (`%s`)" % (container(o), container(real)))
+            elif base_name(n) != base_name(o) and want(base_name(n), base_name(o), "function %s:" % container(o)) is False:
                 exact[real] = o
                 notes.append("function `%s` is the reviewed tree's `%s` (exact paths only: the new name is not fresh)" % (real, o))
     for c in conflicts:
@@ -378,6 +437,38 @@ def restore_params(d):
     return notes
 
 
+def restore_files(d):
+    """Scopes of rules are written in terms of the reviewed tree's files.  A function that was moved to another file
+    keeps the scope it was reviewed in (`reviewed_file`; reports still use the real file and line), and functions that
+    are new in a file made up mostly of moved functions share that scope."""
+    B = baseline()
+    bf = B["fns"].get("%s.%s" % (d.get("crate"), d.get("config")))
+    notes = []
+    if bf is None:
+        return notes
+    votes = {}
+    for fd in d["fns"]:
+        owner = fd.get("owner") or fd["path"]
+        b = bf.get(fd["path"]) or bf.get(owner)
+        if b and b.get("file") and fd.get("file"):
+            votes.setdefault(fd["file"], {}).setdefault(b["file"], 0)
+            votes[fd["file"]][b["file"]] += 1
+            if b["file"] != fd["file"]:
+                fd["reviewed_file"] = b["file"]
+    known_files = {b.get("file") for b in bf.values()}
+    for fd in d["fns"]:
+        f = fd.get("file")
+        if "reviewed_file" in fd or f in known_files or f not in votes:
+            continue
+        best = max(votes[f], key=votes[f].get)
+        if votes[f][best] * 2 > sum(votes[f].values()):
+            fd["reviewed_file"] = best
+    moved = sorted({(fd["file"], fd["reviewed_file"]) for fd in d["fns"] if fd.get("reviewed_file")})
+    for cur, rev in moved:
+        notes.append("code in %s is analysed in the scope of the reviewed tree's %s" % (cur, rev))
+    return notes
+
+
 def normalise(outdir, fact_files, use_plan=None):
     """Rewrite the named fact files of `outdir` in the reviewed vocabulary.  Returns the plan that was applied."""
     texts, parsed = {}, {}
@@ -398,6 +489,7 @@ def normalise(outdir, fact_files, use_plan=None):
         t2 = _exact_sub(_token_sub(_module_sub(t, pl.get("modules", {})), pl["tokens"]), pl["exact"])
         d = json.loads(t2)
         pn = restore_params(d) if isinstance(d, dict) and "fns" in d else []
+        pn += restore_files(d) if isinstance(d, dict) and "fns" in d else []
         notes.extend(pn)
         if pl.get("members"):
             _members_sub(d, pl["members"])
